@@ -29,7 +29,7 @@ def table(metas, first=True):
 
 
 def main():
-    r1, r2, r3, r4, r5, r6, r7 = load("r1"), load("r2"), load("r3"), load("r4"), load("r5"), load("r6"), load("r7")
+    r1, r2, r3, r4, r5, r6, r7, r8 = load("r1"), load("r2"), load("r3"), load("r4"), load("r5"), load("r6"), load("r7"), load("r8")
 
     def own(ms):
         return sum(1 for m in ms if m["own_property_check_reports_it"])
@@ -43,7 +43,7 @@ property and a scratch git worktree (never `/repo`, nothing from `/verif`): `pat
 the sub-agent's demonstration (`demo.c` / `demo.sh` and small inputs), and `meta.json` (the sub-agent's description plus
 what was confirmed here: `confirmed_by_verif` = build ok, 19/19 tests pass, tails of the demonstration against the patched
 and the clean build; `checks_reporting_it` = violation keys per property check, `own_property_check_reports_it`, and for
-rounds 2 to 7 `reported_at_first_contact` = reported by the seeded property's own check before any rule was added in
+rounds 2 to 8 `reported_at_first_contact` = reported by the seeded property's own check before any rule was added in
 response to that round).
 
 None of these changes is, or ever was, committed to `/repo`. To run the checks against one:
@@ -55,7 +55,7 @@ None of these changes is, or ever was, committed to `/repo`. To run the checks a
 or, without touching `/repo`, `python3 /verif/tools/seedrun.py /verif/seeded/<id> [Cxx ...]`.
 Patches of round 1 whose context was changed by a later `fix:` commit were rebased (`patch.orig-tree.diff` keeps the
 original). Every change that its own property's check reports is registered in `selftest/mutants.json` as a patch mutant
-(`r1-...` to `r7-...`): the thorough tier fails if it stops being reported.
+(`r1-...` to `r8-...`): the thorough tier fails if it stops being reported.
 
 | round | changes | reported at first contact (own check) | reported now (own check) |
 |---|---|---|---|
@@ -66,6 +66,7 @@ original). Every change that its own property's check reports is registered in `
 | 5 (`r5-*`) | %d | %d | %d |
 | 6 (`r6-*`) | %d | %d | %d |
 | 7 (`r7-*`) | %d | %d | %d |
+| 8 (`r8-*`) | %d | %d | %d |
 
 "Also reported by" lists checks of other properties that contain the same rule on purpose (shared rules such as RESUME,
 RESET, EXIT, LOCALOWN, READFIRST, DICTSIB, ACCUM are wired into every property whose statement they are a necessary
@@ -77,6 +78,12 @@ Not reported, and why: `r1-C02-1` and `r4-C02-2` (rounding smear
 replaced by a `get_dist_slot()` expression: exit 2), `r3-C14-3` (a new
 alignment fast path in the CLMUL CRC: deciding it means interpreting carry-less-multiplication folding over 128-bit
 lanes for every alignment, i.e. symbolic execution).
+
+## Round 8
+
+| seed | change | key reported by the property's own check | also reported by | at first contact |
+|---|---|---|---|---|
+%s
 
 ## Round 7
 
@@ -119,10 +126,10 @@ lanes for every alignment, i.e. symbolic execution).
 | seed | change | key reported by the property's own check | also reported by |
 |---|---|---|---|
 %s
-""" % (len(r1), own(r1), len(r2), fc(r2), own(r2), len(r3), fc(r3), own(r3), len(r4), fc(r4), own(r4), len(r5), fc(r5), own(r5), len(r6), fc(r6), own(r6), len(r7), fc(r7), own(r7), table(r7), table(r6), table(r5), table(r4), table(r3), table(r2), table(r1, first=False))
+""" % (len(r1), own(r1), len(r2), fc(r2), own(r2), len(r3), fc(r3), own(r3), len(r4), fc(r4), own(r4), len(r5), fc(r5), own(r5), len(r6), fc(r6), own(r6), len(r7), fc(r7), own(r7), len(r8), fc(r8), own(r8), table(r8), table(r7), table(r6), table(r5), table(r4), table(r3), table(r2), table(r1, first=False))
     open(os.path.join(V, "seeded", "README.md"), "w").write(txt)
-    print("README: r1 %d/%d, r2 %d/%d (first %d), r3 %d/%d (first %d), r4 %d/%d (first %d), r5 %d/%d (first %d), r6 %d/%d (first %d), r7 %d/%d (first %d)" % (
-        own(r1), len(r1), own(r2), len(r2), fc(r2), own(r3), len(r3), fc(r3), own(r4), len(r4), fc(r4), own(r5), len(r5), fc(r5), own(r6), len(r6), fc(r6), own(r7), len(r7), fc(r7)))
+    print("README: r1 %d/%d, r2 %d/%d (first %d), r3 %d/%d (first %d), r4 %d/%d (first %d), r5 %d/%d (first %d), r6 %d/%d (first %d), r7 %d/%d (first %d), r8 %d/%d (first %d)" % (
+        own(r1), len(r1), own(r2), len(r2), fc(r2), own(r3), len(r3), fc(r3), own(r4), len(r4), fc(r4), own(r5), len(r5), fc(r5), own(r6), len(r6), fc(r6), own(r7), len(r7), fc(r7), own(r8), len(r8), fc(r8)))
 
 
 if __name__ == "__main__":
